@@ -872,6 +872,9 @@ def fold_int_constants(prog: Program) -> int:
         for name, val in mod.constants.items():
             if counts.get(name) == 1 and name.isupper() and isinstance(val, ast.Constant) and isinstance(val.value, int) and not isinstance(val.value, bool):
                 table[f"{mod.name}.{name}"] = val
+            # short one-line string constants too (`CORE_ORIGIN = "pixee"`): `x == CORE_ORIGIN` and `x == "pixee"` are the same test
+            elif counts.get(name) == 1 and name.isupper() and isinstance(val, ast.Constant) and isinstance(val.value, str) and len(val.value) <= 40 and "\n" not in val.value:
+                table[f"{mod.name}.{name}"] = val
     if not table:
         return 0
     n = 0
